@@ -37,7 +37,8 @@ def gen_case(rng, n_max=5, n_min=2, n=None):
         order = []
     return {"cands": cands, "ballots": [list(b) if b is not None else None for b in prof], "winner": winner,
             "asn": rng.choice(("cp", "bp")), "order": order, "informal": rng.choice((0, 0, 3)), "warm": rng.random() < 0.25,
-            "dict_order": rng.choice(("preference", "candidate", "reversed")), "cname": rng.choice(("con1", "con1", "con1", 1))}
+            "dict_order": rng.choice(("preference", "candidate", "reversed")), "cname": rng.choice(("con1", "con1", "con1", 1)),
+            "rank_gaps": rng.random() < 0.3}
 
 
 def run_raire(case, rec, monitor):
@@ -60,9 +61,20 @@ def run_raire(case, rec, monitor):
         # the ballot mapping may be stored in any order (the documentation's own example lists candidates in candidate
         # order): preference order, candidate order, reversed - the ranks are what counts
         ranks = {c: k for k, c in enumerate(b)}
+        if case.get("rank_gaps"):
+            # rank numbers with holes (a write-in or another contest's id dropped by the reader, a skipped rank): only
+            # the order of the ranks means anything
+            # (the first listed candidate keeps rank 0: "first preference" is rank 0 on the generator side and rank 1 on
+            # the audit side by definition, so a hole BEFORE the first rank would change the ballot's meaning)
+            step, acc = (2, 1, 3, 1), 0
+            for k, c in enumerate(b):
+                ranks[c] = acc
+                acc += step[(i + k) % 4]
         mode = case.get("dict_order", "preference")
         keys = list(b) if mode == "preference" else [c for c in cands if c in ranks] if mode == "candidate" else list(reversed(b))
         cvrs[bid] = {cname: {c: ranks[c] for c in keys}}
+    if case.get("rank_gaps"):
+        rec.count("ballots_whose_rank_numbers_have_holes")
     if case.get("dict_order", "preference") != "preference":
         rec.count("ballot_mappings_not_stored_in_preference_order")
     tot = sum(1 for b in prof if b is not None) + case.get("informal", 0)
